@@ -66,7 +66,25 @@ POSITIONS = [
     "last-in-lazy-tag-sequence-nested-in-tag",
     # ... and of a registered tag in mapping form, after other items
     "last-value-in-lazy-tag-mapping-in-section",
+    # the tagged node is (part of) the value of a merge key: PyYAML merges the *nodes* of
+    # such a value into the parent, the one place where it does not look a tag up
+    "merge-value-in-section",
+    "merge-list-item-in-section",
+    "merge-list-in-section",
+    "merge-value-in-lazy-tag-mapping-in-pipeline",
+    "merge-value-in-eager-tag-mapping-in-section",
+    "merge-value-in-type-mapping",
 ]
+
+
+def shapes_for(position):
+    """A merge value has to be a mapping (or a list of mappings): other shapes are refused
+    by YAML itself, also with registered tags"""
+    if position == "merge-list-in-section":
+        return ["seq"]
+    if position.startswith("merge-"):
+        return ["map"]
+    return SHAPES
 #: second tags of the two-tag documents (thorough): one per kind, aimed at the canaries
 INNER_TAGS = [
     ("multi", "python/name:", "verif_plugins.canary"),
@@ -233,6 +251,22 @@ def build_document(position, node):
     elif position == "last-value-in-lazy-tag-mapping-in-section":
         section = yt.mapping([("a", yt.mapping([("k", yt.py(1)), ("z", node)],
                                                tag="!VItemL"))])
+    elif position.startswith("merge-"):
+        plain = yt.mapping([("p", yt.py(1))])
+        if position == "merge-list-item-in-section":
+            node = yt.seq([plain, node])
+        elif position == "merge-list-in-section":
+            node = yt.seq([plain, yt.mapping([("q", yt.py(2))])], tag=node.tag)
+        items = [("k", yt.py(1)), ("<<", node)]
+        if position == "merge-value-in-lazy-tag-mapping-in-pipeline":
+            pipeline = [yt.mapping(items, tag="!VDeco1L"), pool]
+        elif position == "merge-value-in-eager-tag-mapping-in-section":
+            section = yt.mapping([("a", yt.mapping(items, tag="!VItemE"))])
+        elif position == "merge-value-in-type-mapping":
+            pipeline = [yt.mapping([("__type__", yt.scalar("verif_plugins.VDeco1L"))] + items),
+                        pool]
+        else:
+            section = yt.mapping([("a", yt.mapping(items))])
     else:
         raise ValueError(position)
     top = [("pipeline", yt.seq(pipeline))]
@@ -468,7 +502,7 @@ def cases_of(shard_args):
             if spelling == "verbatim" and spec[0] == "local":
                 continue
             for position in POSITIONS:
-                for shape in SHAPES:
+                for shape in shapes_for(position):
                     yield {"tag": list(spec), "spelling": spelling,
                            "position": position, "shape": shape}
     elif kind == "nested":
@@ -476,6 +510,8 @@ def cases_of(shard_args):
         for inner in INNER_TAGS:
             for position in POSITIONS:
                 for shape in ("seq", "map"):
+                    if shape not in shapes_for(position):
+                        continue
                     yield {"tag": list(spec), "spelling": "short", "position": position,
                            "shape": shape, "inner": list(inner)}
 
@@ -546,7 +582,7 @@ def shard(args):
             return acc
         if args[0] == "controls":
             for position in POSITIONS:
-                for shape in SHAPES:
+                for shape in shapes_for(position):
                     problem = run_control(position, shape)
                     acc.case(nontrivial_key=None)
                     acc.outcome(("control", problem is None))
@@ -597,7 +633,8 @@ def run(ctx):
                 "spellings": spellings, "nested_second_tags": 0 if ctx.quick else len(INNER_TAGS),
                 "pyyaml": __import__("yaml").__version__},
     )
-    if ctx.acc.counters.get("controls-loaded", 0) != len(POSITIONS) * len(SHAPES) and \
+    if ctx.acc.counters.get("controls-loaded", 0) != sum(
+            len(shapes_for(position)) for position in POSITIONS) and \
             not ctx.acc.violations:
         raise RuntimeError("controls did not run")
     if ctx.acc.counters.get("canary-selftests-passed", 0) < 9:
